@@ -69,8 +69,22 @@ type c08Scn struct {
 	Freeze bool `json:"freeze,omitempty"`
 	// OnlyFreeze restricts schedule deviations to fz/un.
 	OnlyFreeze bool `json:"only_freeze,omitempty"`
-	// NoRestart removes the "restart Bob" event from the alphabet.
-	NoRestart bool `json:"no_restart,omitempty"`
+	// FaultKinds / FreezeWires restrict the fault events / the wires that may be
+	// frozen (empty = all). Used to shard one large space over several workers.
+	FaultKinds  []string `json:"fault_kinds,omitempty"`
+	FreezeWires []string `json:"freeze_wires,omitempty"`
+}
+
+func c08In(list []string, v string) bool {
+	if len(list) == 0 {
+		return true
+	}
+	for _, x := range list {
+		if x == v {
+			return true
+		}
+	}
+	return false
 }
 
 func (s c08Scn) total() int {
@@ -215,6 +229,7 @@ type c08World struct {
 	t0         time.Time
 
 	info  func(string)
+	lastParts []string
 	viols []c08Viol
 	obs   []string // observation after every event
 	dead  string   // harness-level failure (fixture Fatal, panic)
@@ -958,7 +973,7 @@ func (w *c08World) Enabled() []string {
 	if w.scn.Freeze && canDev && w.frozen < 0 {
 		w.mu.Lock()
 		for wi := range w.wires {
-			if len(w.wires[wi]) > 0 {
+			if len(w.wires[wi]) > 0 && c08In(w.scn.FreezeWires, c08WireName[wi]) {
 				devs = append(devs, "fz:"+c08WireName[wi])
 			}
 		}
@@ -966,9 +981,10 @@ func (w *c08World) Enabled() []string {
 	}
 	acts := append([]string{def}, devs...)
 	if canFault {
-		acts = append(acts, "cut:AB", "cut:BC")
-		if !w.scn.NoRestart {
-			acts = append(acts, "rb")
+		for _, f := range []string{"cut:AB", "cut:BC", "rb"} {
+			if c08In(w.scn.FaultKinds, f) {
+				acts = append(acts, f)
+			}
 		}
 	}
 	return acts
@@ -1117,7 +1133,16 @@ func (w *c08World) Do(a string) (err error) {
 		w.idle = 0
 	}
 	w.obs = append(w.obs, o)
-	w.logf("%3d %-7s @%v | %s", w.events, a, time.Since(w.t0), o)
+	if w.info != nil {
+		w.logf("%3d %-7s @%-6v %s", w.events, a, time.Since(w.t0), w.wireString())
+		parts := w.obsParts()
+		for i, p := range parts {
+			if i >= len(w.lastParts) || w.lastParts[i] != p {
+				w.logf("              %s", p)
+			}
+		}
+		w.lastParts = parts
+	}
 	if f := w.tb.failures(); len(f) > 0 && w.dead == "" {
 		w.dead = "fixture failure: " + strings.Join(f, "; ")
 	}
@@ -1171,10 +1196,12 @@ func (w *c08World) htlcStr(hs []channeldb.HTLC) string {
 	return strings.Join(s, ",")
 }
 
-// obsCore: the canonical observation of the system proper (no explorer counters).
-func (w *c08World) obsCore() string {
-	var b strings.Builder
+// obsParts: the canonical observation of the system proper (no explorer counters),
+// one element per channel end, then circuits, payment results, invoices.
+func (w *c08World) obsParts() []string {
+	var parts []string
 	for e, ch := range w.chans {
+		var b strings.Builder
 		st := ch.State()
 		st.RLock()
 		lc, rc := st.LocalCommitment, st.RemoteCommitment
@@ -1185,11 +1212,15 @@ func (w *c08World) obsCore() string {
 		if tip := w.pendingRemote(e); tip != nil {
 			fmt.Fprintf(&b, " T h%d [%s]", tip.CommitHeight, w.htlcStr(tip.Htlcs))
 		}
-		fmt.Fprintf(&b, " u%d/%d o%v} ", ch.NumPendingUpdates(lntypes.Local, lntypes.Remote), ch.NumPendingUpdates(lntypes.Remote, lntypes.Local), ch.OweCommitment())
+		fmt.Fprintf(&b, " u%d/%d o%v}", ch.NumPendingUpdates(lntypes.Local, lntypes.Remote), ch.NumPendingUpdates(lntypes.Remote, lntypes.Local), ch.OweCommitment())
+		parts = append(parts, b.String())
 	}
+	var b strings.Builder
 	for i, s := range w.servers {
 		fmt.Fprintf(&b, "%c.circ=%d/%d ", "ABC"[i], s.htlcSwitch.circuits.NumPending(), s.htlcSwitch.circuits.NumOpen())
 	}
+	parts = append(parts, strings.TrimSpace(b.String()))
+	b.Reset()
 	w.mu.Lock()
 	for _, p := range w.pays {
 		fmt.Fprintf(&b, "p%d=%v", p.idx, p.results)
@@ -1204,8 +1235,11 @@ func (w *c08World) obsCore() string {
 			fmt.Fprintf(&b, "inv%d=%s ", p.idx, w.invoiceState(p))
 		}
 	}
-	return b.String()
+	parts = append(parts, strings.TrimSpace(b.String()))
+	return parts
 }
+
+func (w *c08World) obsCore() string { return strings.Join(w.obsParts(), " ") + " " }
 
 func (w *c08World) observe() string {
 	return w.obsCore() + "| " + w.wireString()
